@@ -54,7 +54,7 @@ def wide_classical(draw):
 
 
 def strategy(tier):
-    return st.one_of(*([gen_circ.mixed_circuit(1, 5, max_segments=4, run_max=8)] * 5 + [wide_classical()]))
+    return st.one_of(*([gen_circ.mixed_circuit(1, 5, max_segments=4, run_max=8, identity=True)] * 5 + [wide_classical()]))
 
 
 def judge(case):
